@@ -277,9 +277,15 @@ class FileInspector(abc.ABC):
         # Check to see if the post-read processing added new regions
         # which may require the current chunk.
         new_regions = set(self._capture_regions.values()) - pre_regions
-        if new_regions:
+        while new_regions:
             self._capture(chunk, only=[self.region_name(r)
                                        for r in new_regions])
+            # The data just captured may complete a structure that in turn
+            # locates another region inside this same chunk, so give the
+            # format another look until nothing new is defined.
+            known_regions = set(self._capture_regions.values())
+            self.post_process()
+            new_regions = set(self._capture_regions.values()) - known_regions
 
         post_complete = {region for region in self._capture_regions.values()
                          if region.complete}
